@@ -137,6 +137,8 @@ class RecordRun:
         self.consumer_done = "-"
         self.consumer_bytes = 0
         self.async_close = False
+        self.loop_reader = False  # reads re-issued from inside the previous read's callback
+        self.rearmed = 0
         self.schedule = []
         self.internal = []
         self.held = b""          # bytes of earlier frames held back for the "coalesce" chunking
@@ -238,9 +240,7 @@ class RecordRun:
             if not self.dst.transport.connected:
                 # a read issued after the connection is gone is not a "pending read" of the statement
                 return
-            self.reads.append(None)
-            d = self.dst.receive_record()
-            d.addCallbacks(lambda r, idx=idx: self._read_ok(idx, r), lambda f, idx=idx: self.reads.__setitem__(idx, "err"))
+            self._issue_read()
         elif a == "Cut":
             self.wire[:] = []
             self.held = b""
@@ -261,6 +261,17 @@ class RecordRun:
     def _read_ok(self, idx, r):
         self.reads[idx] = "ok"
         self.got.append(self._ident(r, len(self.got)))
+        if self.loop_reader and self.dst.transport.connected:
+            # the usual reader loop (`while True: rec = yield conn.receive_record()`): the next read is issued from inside
+            # the callback of the previous one
+            self.rearmed += 1
+            self._issue_read()
+
+    def _issue_read(self):
+        idx = len(self.reads)
+        self.reads.append(None)
+        d = self.dst.receive_record()
+        d.addCallbacks(lambda r, idx=idx: self._read_ok(idx, r), lambda f, idx=idx: self.reads.__setitem__(idx, "err"))
 
     def _recv(self):
         frame, _flag = self.wire.pop(0)
@@ -356,7 +367,7 @@ class RecordRun:
                "gotBytes": sum(len(self.payloads[i - 1]) for i in self.got if isinstance(i, int)),
                "clean": self.at_tamper < 0 and [f for f, _ in self.wire] == self.honest[self.consumed:], "inflight": len(self.wire),
                "internal": self.internal, "direction": self.direction, "chunking": self.chunking,
-               "consumer": self.consumer_mode}
+               "consumer": self.consumer_mode, "loopReader": self.loop_reader, "rearmed": self.rearmed}
         return rec
 
 
@@ -445,6 +456,7 @@ def run_c06(prop, tier):
                 sizes = rng.choice(SIZE_PROFILES[:2] if chunking == "bytes" else SIZE_PROFILES)
                 run = RecordRun(tid, direction, chunking, cm, random.Random(seed * 7919 + tid), sizes)
                 run.async_close = (tid % 3 == 0)
+                run.loop_reader = (not cm) and (tid % 4 < 2)
                 if cm:
                     run.attach_consumer(nrec)
                 try:
@@ -485,7 +497,7 @@ def run_c06(prop, tier):
                 v.violation({"clause": bad[0], "manipulation": manip[0] if manip else "none", "mode": "consumer" if rec["consumer"] else "queue"},
                             "%s fails on a real Transit connection (%s, chunking %s): %s" % (",".join(bad), rec["direction"], rec["chunking"],
                                                                                              json.dumps({k: rec[k] for k in ("sent", "got", "atTamper", "state", "pendingReads", "consumerDone")})),
-                            {"schedule": run.schedule, "direction": rec["direction"], "chunking": rec["chunking"], "sizes": run.sizes, "async_close": run.async_close,
+                            {"schedule": run.schedule, "direction": rec["direction"], "chunking": rec["chunking"], "sizes": run.sizes, "async_close": run.async_close, "loop_reader": run.loop_reader,
                              "consumer": rec["consumer"], "observation": rec})
         cov.update(states=states, transitions=transitions, traces_validated_against_impl=len(records), evaluations=len(records),
                    distinct_nontrivial=len(nontrivial), failing_runs=failing,
@@ -516,6 +528,7 @@ def replay(prop, path):
         return transit_select.replay(prop, path)
     run_ = RecordRun(1, d["direction"], d["chunking"], d["consumer"], random.Random(1), d["sizes"])
     run_.async_close = bool(d.get("async_close"))
+    run_.loop_reader = bool(d.get("loop_reader"))
     if d["consumer"]:
         run_.attach_consumer(4)
     for a in d["schedule"]:
